@@ -9,8 +9,17 @@ From Coq Require Import List Bool Arith NArith.
 From TV Require Import Conc ConcX ConcXProofs SchedCases.
 Import ListNotations.
 
-Theorem sched_stream_is_covered fuel ls : bad (fst (run_labels good_progs fuel xinit ls)) = false.
-Proof. apply (xsafe (accepted good_progs fuel xinit ls)). apply run_labels_is_xexec. Qed.
+Theorem sched_stream_is_covered fuel cow ls : bad (fst (fst (run_labels good_progs fuel cow xinit ls))) = false.
+Proof. apply (xsafe (accepted good_progs fuel cow xinit ls)). apply run_labels_is_xexec. Qed.
+
+(** make_mut on a shared value: the value is cloned, the handle given up (the other thread's handle is the last one) *)
+Example sched_stream_runs_make_mut :
+  run_sched [[199; 2; 0]; [200; 1;1;1; 4;1;0; 3;2;0; 6;0;0]; [201; 3;2;1; 4;1;0; 7;0;0]; [202; 8;0;0; 9;0;0];
+             [0;0;0]; [5;0;1]; [10;0;0]; [9;0;1000]; [9;0;0]; [9;0;0]; [9;0;0]; [9;0;1000]; [9;0;0]; [2;0;0]]%N
+  = [[0;0;0; 2;0; 2;0;1]; [5;0;1; 0;0; 0;0;0]; [10;0;0; 0;0; 0;0;0]; [9;0;1; 2;0; 1;2;2]; [9;0;0; 1;0; 0;0;0]; [9;0;0; 4;0; 0;0;0];
+     [9;0;0; 1;0; 0;0;0]; [9;0;1; 2;0; 3;1;2]; [9;0;0; 1;1; 0;0;0];
+     [900; 0;0;0;0; 0;0; 1;0]; [901; 0;0;0;0]]%N.
+Proof. vm_compute. reflexivity. Qed.
 
 (** a schedule of the stream that does something: two threads, a read on one, a non-final and the final drop *)
 Example sched_stream_runs :
